@@ -160,3 +160,48 @@ Definition parse_wheel_tags (filename : str) : pyres (list str * list str * list
       | plat :: abi :: py :: _ => Ret (split_on dot py, split_on dot abi, split_on dot plat)
       | _ => Raise ValueError
       end.
+
+(* ---- EnvSpec.compare ---- *)
+Inductive env_compat := INCOMPATIBLE | LOWER_OR_EQUAL | HIGHER.
+
+Definition os_eqb (a b : os) : bool :=
+  match a, b with
+  | Manylinux x y, Manylinux x' y' | Musllinux x y, Musllinux x' y' | Macos x y, Macos x' y' => (x =? x') && (y =? y')
+  | Windows, Windows => true
+  | _, _ => false
+  end.
+Definition same_os_class (a b : os) : bool :=
+  match a, b with
+  | Manylinux _ _, Manylinux _ _ | Musllinux _ _, Musllinux _ _ | Macos _ _, Macos _ _ | Windows, Windows => true
+  | _, _ => false
+  end.
+Definition os_version (a : os) : option (N * N) :=
+  match a with Manylinux x y | Musllinux x y | Macos x y => Some (x, y) | Windows => None end.
+Definition platform_eqb (a b : platform) : bool := os_eqb (p_os a) (p_os b) && arch_eqb (p_arch a) (p_arch b).
+Definition impl_name_eqb (a b : impl_name) : bool :=
+  match a, b with Cpython, Cpython | Pypy, Pypy | Pyston, Pyston => true | _, _ => false end.
+Definition impl_eqb (a b : implementation) : bool := impl_name_eqb (i_name a) (i_name b) && Bool.eqb (gil_disabled a) (gil_disabled b).
+Definition opt_eqb {A} (f : A -> A -> bool) (a b : option A) : bool :=
+  match a, b with Some x, Some y => f x y | None, None => true | _, _ => false end.
+(* (a, b) <= (c, d) on tuples *)
+Definition pair_leb (p q : N * N) : bool := (fst p <? fst q) || ((fst p =? fst q) && (snd p <=? snd q)).
+
+Definition compare (self target : envspec) : pyres env_compat :=
+  same <- spec_eq (requires_python self) (requires_python target) ;;
+  if same && opt_eqb platform_eqb (e_platform self) (e_platform target) && opt_eqb impl_eqb (e_impl self) (e_impl target)
+  then Ret LOWER_OR_EQUAL
+  else
+    r <- spec_and (requires_python self) (requires_python target) ;;
+    emp <- spec_is_empty r ;;
+    if emp then Ret INCOMPATIBLE
+    else if match e_impl self, e_impl target with Some a, Some b => negb (impl_eqb a b) | _, _ => false end then Ret INCOMPATIBLE
+    else match e_platform self, e_platform target with
+         | Some ps, Some pt =>
+             if negb (arch_eqb (p_arch ps) (p_arch pt)) then Ret INCOMPATIBLE
+             else if negb (same_os_class (p_os ps) (p_os pt)) then Ret INCOMPATIBLE
+             else match os_version (p_os ps), os_version (p_os pt) with
+                  | Some vs, Some vt => if pair_leb vs vt then Ret LOWER_OR_EQUAL else Ret HIGHER
+                  | _, _ => Ret LOWER_OR_EQUAL
+                  end
+         | _, _ => Ret LOWER_OR_EQUAL
+         end.
